@@ -161,7 +161,9 @@ class Runner(object):
     the real observations after each of them. '''
 
     def __init__(self, cfg_a=None, cfg_b=None):
-        self.sysm = System(cfg_a=cfg_a, cfg_b=cfg_b)
+        # socket addresses other than the default IPv4 pair travel inside cfg_a (key '_addrs') so that replays keep them
+        addrs = (cfg_a or {}).get('_addrs')
+        self.sysm = System(cfg_a={k: v for (k, v) in (cfg_a or {}).items() if k != '_addrs'}, cfg_b=cfg_b, addrs=addrs)
         self.conf = {}
         for (e, passive) in (('A', False), ('B', True)):
             cfg = self.sysm.cfg[e]
@@ -243,6 +245,8 @@ class Runner(object):
             sysm.apply(oper)
         elif kind == 'eof':
             sysm.apply(oper)
+        elif kind == 'params':
+            res = sysm.apply(oper)  # a pure query: no model operation
         else:
             raise ValueError(oper)
         self.opres.append((oper[0], e, res))
